@@ -99,7 +99,9 @@ xml_print_ns(struct xmlpr_ctx *pctx, const char *ns, const char *new_prefix, uin
     }
 
     /* suitable namespace not found, must be printed */
-    ly_print_(pctx->out, " xmlns%s%s=\"%s\"", new_prefix ? ":" : "", new_prefix ? new_prefix : "", ns);
+    ly_print_(pctx->out, " xmlns%s%s=\"", new_prefix ? ":" : "", new_prefix ? new_prefix : "");
+    lyxml_dump_text(pctx->out, ns, 1);
+    ly_print_(pctx->out, "\"");
 
     /* and added into namespaces */
     if (new_prefix) {
@@ -356,7 +358,9 @@ xml_print_term(struct xmlpr_ctx *pctx, const struct lyd_node_term *node)
     /* print namespaces connected with the values's prefixes */
     for (i = 1; i < ns_list.count; ++i) {
         mod = ns_list.objs[i];
-        ly_print_(pctx->out, " xmlns:%s=\"%s\"", mod->prefix, mod->ns);
+        ly_print_(pctx->out, " xmlns:%s=\"", mod->prefix);
+        lyxml_dump_text(pctx->out, mod->ns, 1);
+        ly_print_(pctx->out, "\"");
     }
 
     if (!value[0]) {
